@@ -70,6 +70,8 @@ def gen_history_case(rng, thorough):
             b["charges"] = [1e-12 for _ in b["charges"]]
     positions = [(p, s["name"], k) for p, s in leaves(lat) for k in s["kw"] if k in ASSIGNABLE]
     diags = [(p, s["name"]) for p, s in leaves(lat) if s["cls"] in ("Screen", "BPM")]
+    nondiag = [list(p) for p, s in leaves(lat) if s["cls"] not in ("Screen", "BPM")]
+    stored = [list(p) for p, s in leaves(lat) if s["cls"] == "CustomTransferMap"]
     n_ops = rng.randrange(4, 41 if thorough else 13)
     ops = []
     for _ in range(n_ops):
@@ -83,8 +85,12 @@ def gen_history_case(rng, thorough):
             ops.append(["track", rng.randrange(len(beams))])
         elif r < 0.85 and diags:
             ops.append(["read", rng.randrange(len(diags))])
-        elif r < 0.92:
+        elif r < 0.86:
             ops.append(["clone_track", rng.randrange(len(beams))])
+        elif r < 0.94 and nondiag:
+            # track through ONE element object directly; elements that hold a stored map are preferred targets
+            pool = stored if (stored and rng.random() < 0.6) else nondiag
+            ops.append(["etrack", rng.choice(pool), rng.randrange(len(beams))])
         else:
             ops.append(["optim", rng.randrange(4), rng.randrange(len(beams))])
     if not any(o[0] == "track" for o in ops):
@@ -313,6 +319,22 @@ def execute(case):
                 obs.append(cls_id(h))
             else:
                 obs.append(0)      # result not constrained here (optimised copy: C08; clone of an F12 class: C15)
+        elif o[0] == "etrack":
+            el = get_live(seg, tuple(o[1]))
+            b = beams[o[2]]
+            before_b = {n: tensor_bytes(t) for n, t in b.named_buffers()}
+            before_s = snapshot_module(seg)
+            try:
+                el.track(b)
+            except Exception:
+                pass       # e.g. a Bmad-X element with a ParameterBeam: rejected input
+            if {n: tensor_bytes(t) for n, t in b.named_buffers()} != before_b:
+                problems.append({"op": k, "what": "incoming beam modified by tracking directly through " + type(el).__name__})
+            if snapshot_module(seg) != before_s:
+                after = snapshot_module(seg)
+                changed = sorted(x for x in set(after) | set(before_s) if after.get(x) != before_s.get(x))
+                problems.append({"op": k, "what": f"element parameters modified by tracking directly through {type(el).__name__}: {changed[:4]}"})
+            obs.append(0)
         elif o[0] == "read":
             d = o[1]
             el = get_live(seg, diags[d][0])
@@ -364,6 +386,8 @@ def coq_case(case, obs, val_ids):
             ops.append(f"SetActive {o[1]}%nat {'true' if o[2] else 'false'}")
         elif o[0] == "track":
             ops.append(f"Track {o[1]}")
+        elif o[0] == "etrack":
+            ops.append(f"SetActive 0%nat {'true' if (init_a_now[0] if init_a_now else False) else 'false'}")    # no-op in the model
         elif o[0] == "read":
             if k in case.get('_unconstrained_reads', []):
                 ops.append(f"SetActive {o[1]}%nat {'true' if init_a_now[o[1]] else 'false'}")    # no-op: this read-out is unspecified
